@@ -118,6 +118,12 @@ def verdict(ctx, prog):
         ok2 = want_hdr in texts
         ctx.ob("C08-D2/DEP", ok2, fa.site(s), "the other side is the merkle_root of the local header at the height the transaction is recorded at",
                detail="" if ok2 else " == ".join(texts), func=q, key=f"C08-D2/DEP|{q}|header-side")
+    # the header compared with is the header the wallet holds NOW: it is read after the last hand-over to the event loop (the proof request can take
+    # seconds; a reorganisation that replaces the header meanwhile must be seen)
+    for s in asg:
+        hd = [x for x in fa.stmts(ast.Assign) if isinstance(x.value, ast.Await) and "self.headers.get(" in unparse(x.value)]
+        src = hd[0] if len(hd) == 1 else s
+        R.no_await_between(ctx, "C08-D2/FRESH", fa, src, s, "no await between reading the local header and comparing its merkle_root", key=f"C08-D2/FRESH|{q}|header")
     hs = [s for s in fa.stmts(ast.Assign) if any(dotted(t) == f"{tx}.height" for t in s.targets)]
     ctx.ob("C08-D2/DEP", len(hs) == 1 and dotted(hs[0].value) == rh, fa.site(), "the height recorded on the transaction is that same remote_height", func=q)
     redef = [d for n in fa.cfg.nodes for d in fa.rd.defs_at[n.id] if d.name in (rh, tx)]
